@@ -347,6 +347,19 @@ def c14(ctx, e):
         if len(starts) > 1:
             ctx.violation("started-more-than-once", f"{n['k']} at {path} sent START {len(starts)} times", scen_of(e))
             return
+        if n["k"] == "invoke" and starts and starts[0].get("invoke") is not None:
+            # invoke sends the SERIALIZED payload (default: JSON, exactly one encoding) and the target
+            import json as _json
+            sent, target = starts[0]["invoke"]
+            want = _json.dumps(n["payload"] if "payload" in n else {"from": path})
+            try:
+                same = sent is not None and _json.loads(sent) == _json.loads(want) and type(_json.loads(sent)) is type(_json.loads(want))
+            except ValueError:
+                same = False
+            if not same or target != "target-fn":
+                ctx.violation("invoke-payload-unfaithful", f"invoke {path}: payload {n.get('payload', {'from': path})!r} went out as {str(sent)[:60]!r} "
+                                                           f"(expected {want[:60]!r}) to {target!r}", scen_of(e))
+                return
         dl = e.rec.delivered.get(path, [])
         for (inv, kind, rep) in dl:
             st = rec["Status"]
